@@ -4,7 +4,7 @@
 
     Model: LV.Model.FcKernel (cds::algo::flat_combining::kernel, one atomic access per step) driving the
     counting container of harness/C23 (the cnt_ definitions of LV.Model.FcKernel).  Only statements here; the proofs are in
-    LV.Proofs.FcKernelProofs / LV.Proofs.FcKernelShape / LV.Proofs.FcContainers.
+    LV.Proofs.FcKernelProofs / LV.Proofs.FcKernelShape / LV.Proofs.FcKernelFree / LV.Proofs.FcContainers.
 
     Quantifiers of every theorem: any number of threads, any client programs made of requests (through
     kernel::combine or kernel::batch_combine) and thread exits, EVERY schedule ([Conc.reach] = every sequence
@@ -88,10 +88,27 @@ Print Assumptions C23_fc_exactly_once_mutex_if_not_lost.
 (** *** records are not used after they were freed *)
 Definition has_uaf (tr : list (nat * ev)) : bool := existsb (is_ev "uaf") tr.
 
-Definition C23_fc_records_not_used_after_free_statement : Prop :=
+(** On the current code, for every schedule, any number of threads, thread exits at any moment (in particular
+    between the two loops of another thread's compact_list), any compact factor: no atomic access of the kernel
+    is to a freed publication record.  Same preconditions as exactly-once.
+
+    Proof: LV.Proofs.FcKernelFree (part B's publication-list invariant extended with the ghost allocated list
+    and the set of freed records: a record is freed only when it has no owner, is_published returned false -
+    so it is not in the publication list - and the same CAS unlinks it from the allocated list; every access
+    is to the thread's own record, to m_pHead, or - under the combiner lock - to a record reached through one
+    of the two lists or completed by fc_process in the same pass). *)
+Theorem C23_fc_records_not_used_after_free :
   forall (fuel mask npass : nat) (ths : list (list cop)) c,
-    ops_ok cnt_okop ths -> Conc.reach (cnt_init_cfg true fuel mask npass ths) c ->
+    ops_ok cnt_okop ths -> passes_ok npass ths -> Conc.reach (cnt_init_cfg true fuel mask npass ths) c ->
     has_uaf (Conc.trace c) = false.
+Proof. exact fc_records_not_used_after_free. Qed.
+Print Assumptions C23_fc_records_not_used_after_free.
+
+Corollary C23_fc_records_not_used_after_free_npass :
+  forall (fuel mask npass : nat) (ths : list (list cop)) c,
+    1 <= npass -> ops_ok cnt_okop ths -> Conc.reach (cnt_init_cfg true fuel mask npass ths) c ->
+    has_uaf (Conc.trace c) = false.
+Proof. intros fuel mask npass ths c Hn Hok Hr. exact (fc_records_not_used_after_free Hok (passes_ok_pos ths Hn) Hr). Qed.
 
 (** Before commit 5412e9d ([chk = false]: loop 2 of compact_list frees every `removed` record) the statement is
     FALSE: thread 1 exits between the two loops of thread 0's compact_list; its record is freed while
